@@ -58,7 +58,10 @@ GenSpec == GenInit /\ [][GenNext]_<<vars, hist>>
    handed to the sender instead *)
 \* (bound by \E over a singleton so that the random draw is evaluated once; a LET would be re-evaluated at every use)
 GenForge == faults > 0 /\ \E f \in {RandomElement(ForgedAcks)} : ForgeA(f) /\ Rec([op |-> "forgeA", f |-> FrameOut(f)])
-GenSpecHostile == GenInit /\ [][GenNext \/ GenForge]_<<vars, hist>>
+\* (one forged frame in three is a sync frame; the set of forged data frames is eighty times larger)
+GenForgeD == faults > 0 /\ \E k \in {RandomElement(1..3)} : \E f \in {RandomElement(IF k = 1 THEN ForgedSyncs ELSE ForgedData)} :
+                 ForgeD(f) /\ Rec([op |-> "forgeD", f |-> FrameOut(f)])
+GenSpecHostile == GenInit /\ [][GenNext \/ GenForge \/ GenForgeD]_<<vars, hist>>
 
 Bounded == nframes <= MaxFrames /\ nsyncs <= MaxSyncs
 (* printed once per simulated behaviour, when it reaches the requested depth *)
